@@ -20,6 +20,59 @@ def sh(cmd, cwd=None, timeout=1800):
     return p.returncode, p.stdout
 
 
+def do_import_cfg(src, sid, prop):
+    """like import, but the demo is run under the three feature configurations: it must pass in all of them on the pristine
+    tree and fail in at least one with the patch (C19 seeds)"""
+    dst = os.path.join(SEEDED, sid)
+    wt = tempfile.mkdtemp(prefix="tzrs-confirm-", dir="/tmp")
+    os.rmdir(wt)
+    ran, ok = [], True
+    cfgs = ["", "--no-default-features --features alloc", "--no-default-features"]
+    try:
+        rc, out = sh(f"git -C /repo worktree add --detach {wt} HEAD")
+        assert rc == 0, out
+        os.makedirs(os.path.join(wt, "tests"), exist_ok=True)
+        shutil.copy(os.path.join(src, "demo.rs"), os.path.join(wt, "tests", "demo.rs"))
+        def run(cmd):
+            rc, out = sh(cmd, cwd=wt)
+            tail = [l for l in out.strip().splitlines() if l.startswith("test result")][:3]
+            ran.append({"cmd": cmd, "rc": rc, "tail": tail})
+            return rc, out
+        for c in cfgs:
+            rc, _ = run(f"cargo test --offline {c} --test demo")
+            ok &= rc == 0
+        rc, _ = run(f"git apply {os.path.join(src, 'patch.diff')}")
+        ok &= rc == 0
+        builds = [run(f"cargo build --offline {c}")[0] for c in cfgs]
+        rc, out = run("cargo test --offline --lib")
+        ok &= rc == 0 and "42 passed" in out
+        rc, _ = run("cargo test --offline --doc")
+        ok &= rc == 0
+        fails = [run(f"cargo test --offline {c} --test demo")[0] != 0 for c in cfgs]
+        ok &= any(fails) or any(b != 0 for b in builds[1:])
+        ok &= builds[0] == 0
+    finally:
+        sh(f"git -C /repo worktree remove --force {wt}")
+        shutil.rmtree(wt, ignore_errors=True)
+    if not ok:
+        print(f"NOT CONFIRMED {sid}:")
+        print(json.dumps(ran, indent=1))
+        return 1
+    os.makedirs(dst, exist_ok=True)
+    for f in ("patch.diff", "demo.rs"):
+        shutil.copy(os.path.join(src, f), os.path.join(dst, f))
+    meta = {}
+    try:
+        meta = json.load(open(os.path.join(src, "meta.json")))
+    except Exception:
+        pass
+    json.dump({"id": sid, "property": prop, "summary": meta.get("summary", ""), "needs": meta.get("needs", ""), "witness": meta.get("witness", ""),
+               "how_to_run_demo": meta.get("how_to_run_demo", ""), "origin": "independent sub-agent given only the property text and a scratch worktree",
+               "author_ran": meta.get("ran", []), "confirmed": ran, "detected_by": {}}, open(os.path.join(dst, "meta.json"), "w"), indent=1)
+    print(f"confirmed and stored {sid}")
+    return 0
+
+
 def do_import(src, sid, prop):
     dst = os.path.join(SEEDED, sid)
     wt = tempfile.mkdtemp(prefix="tzrs-confirm-", dir="/tmp")
@@ -148,6 +201,8 @@ if __name__ == "__main__":
     a = sys.argv
     if len(a) >= 5 and a[1] == "import":
         sys.exit(do_import(a[2], a[3], a[4]))
+    if len(a) >= 5 and a[1] == "import-cfg":
+        sys.exit(do_import_cfg(a[2], a[3], a[4]))
     if len(a) >= 3 and a[1] == "detect":
         sys.exit(do_detect(a[2], a[3:]))
     if len(a) >= 2 and a[1] == "table":
